@@ -1052,7 +1052,8 @@ def maximal_sets(spec):
 def generate_valid(cls, tier="quick"):
     """-> [(label, wire)].  (1) every consistent subset of optional items (quick:
     size <= 3 and the maximal sets) with the primary boundary value of each item,
-    in thorough additionally with two rotations of the value lists; (2) every
+    in thorough additionally with two rotations of the value lists and every pair
+    of items with every combination of their boundary values; (2) every
     item alone with each of its boundary values; (3) every positional field with
     each of its boundary values, alone and with the maximal sets; (4) for
     SUBSCRIBE/REGISTER every match policy with each URI of that policy."""
@@ -1068,6 +1069,29 @@ def generate_valid(cls, tier="quick"):
             enc = V_ENC_ALGO[r % len(V_ENC_ALGO)]
             out.append(("subset:%s/r%d" % ("+".join(S) or "-", r), build(spec, chosen,
                                                                            enc_algo=enc)))
+    if tier == "thorough":
+        # (1b) every consistent pair of optional items with every combination of their values
+        items = _items(spec)
+        for a, b in itertools.combinations(items, 2):
+            S = (a, b)
+            extra = ()
+            if not _consistent(spec, S):
+                need = set()
+                for x in S:
+                    if x in ("enc_key", "enc_serializer"):
+                        need.add("payload")
+                    if x == "resume-session":
+                        need.add("resume-token")
+                if spec.dict_optional:
+                    need.add("@dict")
+                extra = tuple(sorted(need - set(S)))
+                if not _consistent(spec, S + extra):
+                    continue
+            for i, va in enumerate(_values(spec, a)):
+                for j, vb in enumerate(_values(spec, b)):
+                    chosen = {c: _values(spec, c)[0] for c in extra}
+                    chosen[a], chosen[b] = va, vb
+                    out.append(("pair:%s#%d+%s#%d" % (a, i, b, j), build(spec, chosen)))
     for item in _items(spec):
         if not _consistent(spec, (item,)):
             # needs company (enc_key -> payload, resume-session -> resume-token)
